@@ -71,19 +71,6 @@ func settled(max time.Duration) bool {
 	return false
 }
 
-func selfHeld(c C16Case, i int) bool {
-	cl := c.Clients[i]
-	if !cl.Stall || cl.Publish == 0 {
-		return false
-	}
-	for _, j := range cl.SubsTo {
-		if j%len(c.Clients) == i {
-			return true
-		}
-	}
-	return false
-}
-
 func c16topic(i int) string { return fmt.Sprintf("t/%d", i) }
 
 func runC16(c C16Case) (res c16result) {
@@ -182,6 +169,16 @@ func runC16(c C16Case) (res c16result) {
 		}
 		return false
 	}
+	if nb := func() (k int) {
+		for i := range c.Clients {
+			if heldUp(i) {
+				k++
+			}
+		}
+		return
+	}(); nb >= 8 {
+		cls[">=8-processors-blocked-on-one-subscriber"] = true
+	}
 	for i := range c.Clients {
 		if heldUp(i) {
 			cls["publisher-blocked-on-stalled-subscriber"] = true
@@ -241,10 +238,20 @@ func runC16(c C16Case) (res c16result) {
 		if cause == "keepalive" && !c.Clients[i].KA1 {
 			cause = "close"
 		}
-		if cause == "keepalive" && selfHeld(c, i) {
-			// the broker cannot notice the silence of a connection whose own stalled
-			// reader blocks its own processor: that connection is still open and holding
-			// up a delivery from itself (the statement's proviso)
+		if cause == "keepalive" && heldUp(i) {
+			// the broker cannot notice the silence of a connection whose processor is
+			// blocked on a stalled, still open subscriber (its own reader included): the
+			// inbound ring is full, the receiver does not read and no read deadline
+			// runs. Such a connection has not ended - it is still open and, if it has
+			// stopped reading itself, still holds up others (the statement's proviso) -
+			// so the harness ends it by closing the socket instead.
+			cause = "close"
+		}
+		if cause == "disconnect" && c.Clients[i].KA1 {
+			// a connection with a keep-alive of 1 s that nobody keeps alive expires on
+			// its own about 1.2 s after its last packet, possibly before this point:
+			// whether its will is due would depend on timing, so its end is one for
+			// which the will is due either way
 			cause = "close"
 		}
 		cls["end:"+cause] = true
@@ -407,7 +414,42 @@ func runC16(c C16Case) (res c16result) {
 	return res
 }
 
+// genC16Crowd: many publishers whose processors are all blocked on one
+// stalled subscriber (connected last or first), some ended one by one, the
+// rest by Server.Close.
+func genC16Crowd(t *rapid.T) C16Case {
+	n := rapid.IntRange(7, 14).Draw(t, "crowd")
+	var c C16Case
+	subFirst := rapid.IntRange(0, 3).Draw(t, "subscriber-first") == 0
+	si := n - 1
+	if subFirst {
+		si = 0
+	}
+	for i := 0; i < n; i++ {
+		cl := C16Client{Clean: rapid.Bool().Draw(t, "clean"), Will: rapid.IntRange(0, 3).Draw(t, "will") == 0}
+		if i == si {
+			for j := 0; j < n; j++ {
+				if j != si {
+					cl.SubsTo = append(cl.SubsTo, j)
+				}
+			}
+			cl.Stall = true
+		} else {
+			cl.Publish, cl.MsgSize = rapid.SampledFrom([]int{40000, 70000}).Draw(t, "pubbytes"), rapid.SampledFrom([]int{2000, 4000}).Draw(t, "msgsize")
+		}
+		c.Clients = append(c.Clients, cl)
+	}
+	for i, k := 0, rapid.IntRange(0, 3).Draw(t, "single-ends"); i < k; i++ {
+		c.Ends = append(c.Ends, C16End{C: rapid.IntRange(0, n-1).Draw(t, "ec"), Cause: rapid.SampledFrom([]string{"close", "disconnect", "garbage"}).Draw(t, "cause")})
+	}
+	c.Ends = append(c.Ends, C16End{Cause: "serverclose"})
+	return c
+}
+
 func genC16(t *rapid.T) C16Case {
+	if rapid.IntRange(0, 7).Draw(t, "crowd-case") == 0 {
+		return genC16Crowd(t)
+	}
 	n := rapid.IntRange(2, 5).Draw(t, "nclients")
 	var c C16Case
 	for i := 0; i < n; i++ {
